@@ -144,6 +144,7 @@ def message_abs(o):
         return 'hello_retry_request', {
             'version': ver(o.protocol_version), 'session_id': list(o.session_id), 'cipher_suite': code(o.cipher_suite),
             'compression_method': code(o.compression_method), 'extensions': [ext_generic(e) for e in o.extensions],
+            'random': list(bytes(o.random_bytes.compose())),
             'random_is_hrr_value': bytes(o.random_bytes.compose()) == bytes([207, 33, 173, 116, 229, 154, 97, 17, 190, 29, 140, 2, 30, 101, 184, 145,
                                                                              194, 162, 17, 22, 122, 187, 140, 94, 7, 158, 9, 226, 200, 168, 51, 156])}
     if n == 'TlsApplicationDataMessage':
